@@ -23,7 +23,9 @@ ASSUMPTIONS = [
     "numeric tokens of at most 8 digits and time-signature exponents below 64 (the statement's bounds)",
     "allowed error classes: ValueError (and subclasses), chartparse.exceptions.RegexNotMatchError, MissingRequiredField",
 ]
-CHARS = list("0123456789 =\"[]{}NSEBTA-.") + ["\t", "\u00a0", "\u0663", "\u0669", "\u00e9", "\u4e16", "  ", "lyric ", "section "]
+CHARS = list("0123456789 =\"[]{}NSEBTA-.") + ["\t", "\u00a0", "\u0663", "\u0669", "\u00e9", "\u4e16", "  ", "lyric ", "section "] + \
+    ["%", "%s", "%d", "{}", "{0}", "\\", "\\1", "\\g<0>", "&", "$", "^", "*", "+", "?", "(", ")", "|", ".*", "_", "e", "1e5", "0x", "'", ",",
+     "\r", "\x0c", "\x00", "\u2028", "\ufeff", "\x85", "\x1c"]  # (any text is in this property's quantifier, line-boundary characters included)
 FRAGMENTS = ["[Song]", "[SyncTrack]", "[Events]", "[ExpertSingle]", "[EasyDrums]", "[HardGHLBass]", "[Foo]", "[]", "[", "]", "{", "}", "{", "}",
              "  Resolution = 192", "  Resolution = 0", "  Resolution = 1", "  Resolution = 99999999", "  Resolution = x", "  Offset = 0",
              "  Player2 = bass", "  Player2 = drums", "  Player2 = \"rhythm\"", "  Name = \"x\"", "  Name = ", "  Difficulty = 99999999",
@@ -31,7 +33,11 @@ FRAGMENTS = ["[Song]", "[SyncTrack]", "[Events]", "[ExpertSingle]", "[EasyDrums]
              "  0 = B 99999999", "  10 = B 60000", "  10 = B 000", "  99999999 = B 1", "  0 = A 0", "  5 = A 99999999", "  0 = E \"section a\"",
              "  0 = E \"lyric \"", "  99999999 = E \"x\"", "  0 = E \"a\"b\"", "  0 = N 0 0", "  0 = N 5 0", "  0 = N 6 0", "  0 = N 7 99999999",
              "  0 = N 7 0", "  0 = N 4 5", "  10 = N 5 0", "  10 = N 0 99999999", "  99999999 = N 3 99999999", "  0 = S 2 0", "  5 = S 2 99999999",
-             "  0 = S 64 5", "  0 = E solo", "  99999999 = E soloend", "", " ", "garbage", "  0 = N 8 0", "  0 = E", "  = N 0 0"]
+             "  0 = S 64 5", "  0 = E solo", "  99999999 = E soloend", "", " ", "garbage", "  0 = N 8 0", "  0 = E", "  = N 0 0",
+             # text that is a format string or a pattern to code that reports or matches it carelessly
+             "  0 = E \"100% {} %s\"", "  Name = \"%s %(x)s {0} {}\"", "[%s]", "[{}]", "[{0}]", "[%(x)s]", "  0 = E %s", "  %s = N 0 0", "  0 = N %d 0",
+             "  0 = E \"lyric \\1 \\g<0> &\"", "  0 = E \"section .* (?i) [a-z]+ $\"", "  Genre = \"^rock$\"", "  Player2 = %s", "  Player2 = {}",
+             "  0 = B 1e5", "  0 = B 120_000", "  0 = TS 4 1e1", "  1_0 = N 0 0", "  0 = N 0 +5", "[Expert.ingle]", "[ExpertSingle|Foo]", "  0 = E \"\\\"", "  0 = E \"a\\\""]
 
 
 def required(tier):
